@@ -66,6 +66,13 @@ ROLE = {
     "path_string_from_base": "txtpp::fs::path::abs_path::path_string_from_base",
     "trim_txtpp": "txtpp::fs::path::abs_path::AbsPath::trim_txtpp",
     "resolve_shell": "txtpp::fs::shell::resolve_shell",
+    "normalize_path": "txtpp::fs::path::normalize_path",
+    "is_execute": "txtpp::core::execute::pp::PpMode::is_execute",
+    "abspath_new": "txtpp::fs::path::abs_path::AbsPath::new",
+    "abspath_hash": "<txtpp::fs::path::abs_path::AbsPath as std::hash::Hash>::hash",
+    "abspath_eq": "<txtpp::fs::path::abs_path::AbsPath as std::cmp::PartialEq>::eq",
+    "abspath_clone": "<txtpp::fs::path::abs_path::AbsPath as std::clone::Clone>::clone",
+    "make_error": "txtpp::fs::io_context::IOCtx::make_error",
 }
 
 ADT = {
@@ -88,6 +95,56 @@ ADT = {
     "DepManager": "txtpp::core::util::dependency::DepManager",
 }
 
+ROLE_DEFAULT = dict(ROLE)
+ADT_DEFAULT = dict(ADT)
+
+
+def _impl_key(name):
+    """(self type last segment, trait last segment, method) of `<T as Trait>::method`"""
+    import re as _re
+    m = _re.match(r"^<(.*) as (.*)>::(\w+)$", name)
+    if not m:
+        return None
+    last = lambda x: _re.sub(r"<.*$", "", x).rsplit("::", 1)[-1]
+    return (last(m.group(1)), last(m.group(2)), m.group(3))
+
+
+def resolve_roles(prog):
+    """Re-anchor the crate-private roles on this program: an item whose *module path* changed (moved / module renamed)
+    is still found through its last two segments when that is unique.  Renamed items stay unresolved (fail closed)."""
+    import engine as _E
+    for k, default in ROLE_DEFAULT.items():
+        if default in prog.bodies or not default.startswith(("txtpp::", "<")) or "txtpp" not in default:
+            ROLE[k] = default
+            continue
+        alt = None
+        if default.startswith("<"):
+            key = _impl_key(default)
+            if key:
+                c = [n for n in prog.bodies if n.startswith("<") and _impl_key(n) == key]
+                alt = c[0] if len(c) == 1 else None
+        else:
+            b = _E.resolve_moved(prog, default)
+            alt = b.name if b is not None else None
+        ROLE[k] = alt or default
+    for k, default in ADT_DEFAULT.items():
+        if default in prog.adts:
+            ADT[k] = default
+            continue
+        last = default.rsplit("::", 1)[-1]
+        c = [p for p in prog.adts if p.rsplit("::", 1)[-1] == last]
+        ADT[k] = c[0] if len(c) == 1 else default
+    ABSPATH_VIEWS.clear()
+    ap_mod = ADT["AbsPath"].rsplit("::", 1)[0]
+    ABSPATH_VIEWS.update({
+        "%s::as_path_buf" % ADT["AbsPath"], "%s::as_path" % ADT["AbsPath"], "%s::into_path_buf" % ADT["AbsPath"],
+        "<%s as std::convert::AsRef<std::path::PathBuf>>::as_ref" % ADT["AbsPath"],
+        "<%s as std::convert::AsRef<std::path::Path>>::as_ref" % ADT["AbsPath"],
+        "<%s as std::clone::Clone>::clone" % ADT["AbsPath"],
+        "%s::<impl std::convert::From<%s> for std::path::PathBuf>::from" % (ap_mod, ADT["AbsPath"]),
+    })
+
+
 # crate-local accessors that only view / copy the absolute path of an AbsPath (field `p`)
 ABSPATH_VIEWS = {
     "txtpp::fs::path::abs_path::AbsPath::as_path_buf",
@@ -98,6 +155,12 @@ ABSPATH_VIEWS = {
     "<txtpp::fs::path::abs_path::AbsPath as std::clone::Clone>::clone",
     "txtpp::fs::path::abs_path::<impl std::convert::From<txtpp::fs::path::abs_path::AbsPath> for std::path::PathBuf>::from",
 }
+
+
+def const_by_name(prog, last):
+    """a crate constant by its last path segment (unique), e.g. TXTPP_HASH"""
+    c = [v for p, v in prog.consts.items() if p.rsplit("::", 1)[-1] == last]
+    return c[0] if len(c) == 1 else None
 
 
 def body(ctx, role, prog=None):
